@@ -41,7 +41,7 @@ Proof.
     as (nsi & o & err & E & B1 & B2 & B3 & B4 & B5).
   exists nsi, o, err. split; [exact E|]. split; [exact B1|]. split; [intros; apply B2; lia|].
   split; [exact B3|]. split; [|exact B5].
-  intros He. specialize (B4 He). rewrite lenZ_app. unfold Inv in *; fold srclen in *.
+  intros He. specialize (B4 He). rewrite lenZ_app. unfold Inv in *. fold srclen. fold srclen in HI.
   destruct B4 as [[Ho Hn]|Hn]; [|right; lia].
   destruct HI as [[Hm Hle]|Hge]; [|right; lia].
   left. rewrite Ho. split; [|lia]. Z.div_mod_to_equations. lia.
